@@ -21,7 +21,7 @@ MUTANTS = [
     {"name": "revert-f57c67c-ignore_required-defaults", "revert": "f57c67c", "props": ["C06"]},
     {"name": "c06-datafirst-compares-parsed-with-raw", "props": ["C06"], "edits": [{"file": "utype/parser/base.py", "old": "                    if provided[name] != value:", "new": "                    if result.get(name, value) != value:"}]},
     {"name": "revert-3f17af4-datafirst-spurious-absence", "props": ["C10"], "edits": [{"file": "utype/parser/base.py", "old": "            if name in result or name in attempted:", "new": "            if name in result:"}]},
-    {"name": "c10-handle_error-drops-absence-when-collecting", "props": ["C10"], "edits": [{"file": "utype/parser/options.py", "old": "        self.errors.append(e)\n        if force_raise or not self.options.collect_errors:", "new": "        if not (self.options.collect_errors and type(e).__name__ == 'AbsenceError' and self.errors):\n            self.errors.append(e)\n        if force_raise or not self.options.collect_errors:"}]},
+    {"name": "c10-handle_error-drops-absence-when-collecting", "props": ["C10"], "edits": [{"file": "utype/parser/options.py", "old": "        self.errors.append(e)\n        if force_raise or self.force_error or not self.options.collect_errors:", "new": "        if not (self.options.collect_errors and type(e).__name__ == 'AbsenceError' and self.errors):\n            self.errors.append(e)\n        if force_raise or self.force_error or not self.options.collect_errors:"}]},
     {"name": "c11-seq-preserve-appends-converted-prefix-only", "props": ["C11"], "edits": [{"file": "utype/parser/rule.py", "old": """                    if options.invalid_items == options.PRESERVE:
                         context.collect_waring(error.formatted_message)
                         result.append(item)
@@ -58,6 +58,9 @@ MUTANTS = [
     {"name": "revert-4907b11-async-generator-asend", "revert": "4907b11", "props": ["C08"]},
     {"name": "revert-b8c7212-private-positional-default", "revert": "b8c7212", "props": ["C08"]},
     {"name": "revert-7930fa6-forward-ref-key-collision", "revert": "7930fa6", "props": ["C17"]},
+    {"name": "revert-35946e1-forward-ref-lock", "revert": "35946e1", "props": ["C20"]},
+    {"name": "revert-0686b8d-registry-cache-check-then-read", "revert": "0686b8d", "props": ["C20"]},
+    {"name": "c20-lock-released-before-fields-resolved", "props": ["C20"], "edits": [{"file": "utype/parser/base.py", "old": "        with self._forward_lock:\n            if not self.forward_refs:\n                return False\n            return self._resolve_forward_refs(local_vars=local_vars, ignore_errors=ignore_errors)", "new": "        with self._forward_lock:\n            if not self.forward_refs:\n                return False\n        return self._resolve_forward_refs(local_vars=local_vars, ignore_errors=ignore_errors)"}]},
     # ---- C01 ------------------------------------------------------------------------------
     {"name": "c01-seq-first-element-unconverted", "props": ["C01"], "edits": [{"file": R, "old": """                try:
                     result.append(
